@@ -37,6 +37,8 @@
 #include <primitiv/core/optimizer_impl.h>
 #undef private
 #include <primitiv/core/model.h>
+#include <primitiv/core/functions.h>
+#include <primitiv/core/arithmetic.h>
 #include <primitiv/core/shape.h>
 #include <primitiv/core/tensor.h>
 #include <primitiv/devices/naive/device.h>
@@ -60,7 +62,7 @@ void *operator new[](std::size_t n) {
 using namespace primitiv;
 using vh::BadOp;
 
-static Device *g_naive = nullptr, *g_eigen = nullptr;
+static Device *g_naive = nullptr, *g_eigen = nullptr, *g_naive2 = nullptr;
 static std::string g_dir;
 
 static void cleanup() {
@@ -168,6 +170,7 @@ static std::string show_tensor(const Tensor &t) { return show_shape(t.shape()) +
 static Device &dev_of(const std::string &d) {
   if (d == "n") return *g_naive;
   if (d == "e") return *g_eigen;
+  if (d == "m") return *g_naive2;
   throw BadOp();
 }
 
@@ -211,7 +214,14 @@ static std::string show_param(const Parameter &p) {
         [](char x, char y) { return static_cast<unsigned char>(x) < static_cast<unsigned char>(y); });
   });
   std::string s = ok ? "V;" : "MIXED;";
-  s += (&p.device() == g_naive ? "n" : (&p.device() == g_eigen ? "e" : "?"));
+  // value and gradient must be usable together (operators throw "Device mismatched" otherwise)
+  try {
+    Tensor sum = g + v;
+    if (&sum.device() != &p.device()) ok = false;
+  } catch (const Error &) { ok = false; }
+  if (ok) s = "V;";
+  else s = "MIXED;";
+  s += (&p.device() == g_naive ? "n" : (&p.device() == g_eigen ? "e" : (&p.device() == g_naive2 ? "m" : "?")));
   s += ";" + show_tensor(v) + ";" + hex_words(g.to_vector());
   for (const auto &e : st) s += ";" + hex_of(e.first) + "=" + e.second;
   return s;
@@ -439,6 +449,8 @@ int main() {
   {
     devices::Naive naive;
     devices::Eigen eigen;
+    devices::Naive naive2;
+    g_naive2 = &naive2;
     g_naive = &naive;
     g_eigen = &eigen;
     Device::set_default(naive);
